@@ -157,10 +157,28 @@ def stress(exe, tsan, rnd, nthreads, nops, verdict, label):
             h.dump(x)
         for x in sorted(h.live):
             h.free(x)
+        # layered reads of a PRIVATE tree, every thread with its own name, suffix, delimiter and comment character
+        sfx = ["conf", "cfg", "ini", "rc", "list", "txt", "d", "opts"][t % 8]
+        name = "n%d" % t
+        tr = h.root + "/tree"
+        dl, cm = [("=", "#"), (":", ";"), (" ", "#"), ("=", ";")][t % 4]
+        reads = ["readdirs 40 %s %s %s %s %s %s" % (hx(tr + "/usr/etc"), hx(tr + "/etc"), hx(name), hx(sfx), hx(dl), hx(cm)), "dump 40", "free 40",
+                 "newopt 41 %s" % hx("PARSING_DIRS=%s/usr/etc:%s/etc" % (tr, tr)),
+                 "readconfig 41 - - %s %s %s %s" % (hx(name), hx(sfx), hx(dl), hx(cm)), "dump 41", "free 41"]
+        for _ in range(3):
+            pos = rnd.randrange(1, max(2, len(h.script) - len(h.live) - 1))
+            h.script[pos:pos] = reads
+            h.plan[pos:pos] = [None] * len(reads)
+        h.tree = (tr, name, sfx, dl, cm, t)
         hists.append(h)
 
     def script_for(mode):
         lines = ["rm %s" % hx(R)]
+        for h in hists:
+            tr, name, sfx, dl, cm, t = h.tree
+            lines.append("file %s %s" % (hx("%s/usr/etc/%s.%s" % (tr, name, sfx)), hx("K%sv%d\nV%susr\n" % (dl, t, dl))))
+            lines.append("file %s %s" % (hx("%s/usr/etc/%s.%s.d/a.%s" % (tr, name, sfx, sfx)), hx("A%sa%d\n" % (dl, t))))
+            lines.append("file %s %s" % (hx("%s/etc/%s.%s.d/b.%s" % (tr, name, sfx, sfx)), hx("%c c\nB%sb%d\nK%setc%d\n" % (cm, dl, t, dl, t))))
         files = []
         for t, h in enumerate(hists):
             sf = "%s/p%d.script" % (R, t)
